@@ -1,0 +1,44 @@
+//go:build verif
+
+package streampool
+
+import "sort"
+
+// Read-only accessors for the verification harness (build tag `verif` only).
+
+// VerifTags returns a copy of the tag index: tag -> stream ids (pool order).
+func VerifTags(p StreamPool) map[string][]uint32 {
+	s := p.(*streamPool)
+	s.mu.Lock()
+	defer s.mu.Unlock()
+	out := make(map[string][]uint32, len(s.streamIdsByTag))
+	for tag, ids := range s.streamIdsByTag {
+		out[tag] = append([]uint32(nil), ids...)
+	}
+	return out
+}
+
+// VerifStreamTags returns, for every stream in the pool, its peer id and sorted tags.
+type VerifStream struct {
+	PeerId string
+	Tags   []string
+}
+
+func VerifStreams(p StreamPool) map[uint32]VerifStream {
+	s := p.(*streamPool)
+	s.mu.Lock()
+	defer s.mu.Unlock()
+	out := make(map[uint32]VerifStream, len(s.streams))
+	for id, st := range s.streams {
+		tags := append([]string(nil), st.tags...)
+		sort.Strings(tags)
+		out[id] = VerifStream{PeerId: st.peerId, Tags: tags}
+	}
+	return out
+}
+
+// VerifPending reports the number of messages written to live streams and not yet sent.
+func VerifPending(p StreamPool) int {
+	count, _ := p.(*streamPool).OutgoingMsg()
+	return int(count)
+}
